@@ -381,3 +381,95 @@ class InitEvalDimWise(Contract):
 
 
 CONTRACTS += [FOutputLength(), InitEvalDimWise()]
+
+
+# --------------------------------------------------------------------------- dimension-wise and standard strategies: one component grid at a time
+INTEG_G = z3.Function("global_grid.integrate", P.U, P.U, P.U, P.U, P.U, R)   # quadrature of a GLOBAL grid: depends on the 1-D point sets it was set to
+
+
+class GlobalSetGrid(Contract):
+    file, qualname = "sparseSpACE/Grid.py", "GlobalGrid.set_grid"
+    trusted = True
+    note = "adopts the given 1-D point sets and levels (C09 is about the weights computed here); the grid object remembers them"
+
+    def inputs(self, S):
+        return {"self": Obj("GlobalTrapezoidalGrid", {}), "grid_points": Opaque(S.const("grid_points", P.U)), "grid_levels": Opaque(S.const("grid_levels", P.U))}
+
+    def havoc(self, S, cenv, tag):
+        cenv["self"].fields["points"] = cenv["grid_points"]
+        cenv["self"].fields["levels"] = cenv["grid_levels"]
+
+
+class GlobalIntegrate(Contract):
+    file, qualname = "sparseSpACE/Grid.py", "Grid.integrate"
+    trusted = True
+    note = "quadrature of the global grid on its CURRENT point sets (C09); an uninterpreted function of (points, levels, levelvector, start, end)"
+
+    def applies(self, receiver, args):
+        return receiver.cls == "GlobalTrapezoidalGrid"
+
+    def inputs(self, S):
+        return {"self": Obj("GlobalTrapezoidalGrid", {}), "f": None, "levelvec": Opaque(S.const("levelvec", P.U)), "start": Opaque(S.const("start", P.U)), "end": Opaque(S.const("end", P.U))}
+
+    def result(self, S, env):
+        g = env["self"].fields
+        return INTEG_G(g["points"].term, g["levels"].term, env["levelvec"].term, env["start"].term, env["end"].term)
+
+
+for _c in CONTRACTS:
+    if isinstance(_c, GridIntegrate):
+        _c.applies = lambda receiver, args: receiver.cls != "GlobalTrapezoidalGrid"
+
+
+def dimwise_integration(S):
+    ggrid = lambda nm: Obj("GlobalTrapezoidalGrid", dict(points=Opaque(S.const(nm + ".points", P.U)), levels=Opaque(S.const(nm + ".levels", P.U))))  # noqa
+    return Obj("Integration", dict(grid=ggrid("grid"), grid_surplusses=ggrid("grid_surplusses"), f=None, integral=S.real("integral"), a=Opaque(S.const("a", P.U)), b=Opaque(S.const("b", P.U)),
+                                   refinement_container=Obj("MetaRefinementContainer", dict(value=S.real("container.value"))), dim=S.int("dim")))
+
+
+def component_grid(S):
+    return Obj("ComponentGridInfo", dict(coefficient=S.real("coefficient"), levelvector=Opaque(S.const("cg.levelvector", P.U))))
+
+
+class CalcOperationDimWise(Contract):
+    """dimension-wise strategy: one component grid is evaluated on the 1-D point sets handed in; the combined result and the container total move by
+    coefficient * (quadrature of the grid set to exactly those point sets over the whole domain)"""
+    file, qualname = GO, "Integration.calculate_operation_dimension_wise"
+
+    def inputs(self, S):
+        return {"self": dimwise_integration(S), "gridPointCoordsAsStripes": Opaque(S.const("stripes", P.U)), "grid_point_levels": Opaque(S.const("point_levels", P.U)),
+                "component_grid": component_grid(S)}
+
+    def post(self, S, old, env, result):
+        s, so = env["self"].fields, old["self"].fields
+        q = INTEG_G(old["gridPointCoordsAsStripes"].term, old["grid_point_levels"].term, old["component_grid"].fields["levelvector"].term, so["a"].term, so["b"].term)
+        delta = old["component_grid"].fields["coefficient"] * q
+        return [Cl("combined-result-moves-by-coefficient-times-the-component-result-on-the-given-point-sets", s["integral"] == so["integral"] + delta, prop=True),
+                Cl("container-total-moves-by-the-same-amount", s["refinement_container"].fields["value"] == so["refinement_container"].fields["value"] + delta, prop=True)]
+
+    @staticmethod
+    def model_to_input(model):
+        return {"kind": "C05.dimwise_component"}
+
+
+class EvaluateLevelvec(Contract):
+    """standard combination: the component grid is integrated over the whole domain and added with its coefficient"""
+    file, qualname = GO, "Integration.evaluate_levelvec"
+
+    def inputs(self, S):
+        grid = Obj("TrapezoidalGrid", dict(a=Opaque(S.const("grid.a", P.U)), b=Opaque(S.const("grid.b", P.U))))
+        return {"self": Obj("Integration", dict(grid=grid, f=None, integral=S.real("integral"))), "component_grid": component_grid(S)}
+
+    def post(self, S, old, env, result):
+        g = old["self"].fields["grid"].fields
+        q = INTEG(old["component_grid"].fields["levelvector"].term, g["a"].term, g["b"].term)
+        return [Cl("combined-result-moves-by-coefficient-times-the-component-integral-over-the-whole-domain",
+                   env["self"].fields["integral"] == old["self"].fields["integral"] + old["component_grid"].fields["coefficient"] * q, prop=True)]
+
+    @staticmethod
+    def model_to_input(model):
+        return {"kind": "C05.standard_component"}
+
+
+CONTRACTS += [GlobalSetGrid(), GlobalIntegrate(), CalcOperationDimWise(), EvaluateLevelvec()]
+ASSUMPTIONS += ["Integration.calculate_operation_dimension_wise / evaluate_levelvec: the component quadrature is an uninterpreted function of the grid's current point sets, the level vector and the box"]
